@@ -1,7 +1,7 @@
 """C17 - WebSocket sessions follow the ASGI state machine and report misuse and errors."""
 PROP = 'C17'
-LEAN_MODULES = ['FalconModel.WsProofs', 'FalconModel.WsPayloadProofs', 'FalconModel.WsAcceptProofs']
-DRIVERS = ['wsdriver', 'wpdriver', 'wadriver']
+LEAN_MODULES = ['FalconModel.WsProofs', 'FalconModel.WsPayloadProofs', 'FalconModel.WsAcceptProofs', 'FalconModel.WsArgsProofs']
+DRIVERS = ['wsdriver', 'wpdriver', 'wadriver', 'wtdriver']
 THEOREMS = [
     # legality of everything the server accepts, for every script / inbox / fault / flag sequence
     'Ws.emitted_trace_legal', 'Ws.emitted_trace_legal_mw',
@@ -44,6 +44,11 @@ THEOREMS = [
     'Wa.accept_event_legal', 'Wa.accept_forbidden_header_raises', 'Wa.accept_event_only_if_checked', 'Wa.accept_is_op',
     'Wa.process_ok', 'Wa.forbidden_rejected', 'Wa.forbidden_rejected_valueError', 'Wa.every_spelling_forbidden', 'Wa.every_spelling_rejected',
     'Wa.lowerStr_applyCase', 'Wa.lowerCp_not_upper', 'Wa.encodeAscii_ok', 'Wa.encodeItem_ok', 'Wa.encodeAll_ok', 'Wa.lowerStr_lowerAscii',
+    # the send / receive entry points over argument type x connection state (WsArgs.lean, namespace Wt): order of the state test and the isinstance test
+    'Wt.state_error_wins', 'Wt.accepted_bad_argument', 'Wt.bad_argument_inert', 'Wt.bad_argument_outcome', 'Wt.good_send_accepted', 'Wt.good_send_flag',
+    'Wt.send_returns_iff', 'Wt.sent_exact', 'Wt.recv_wrong_state', 'Wt.recvText_wrong_kind', 'Wt.recvData_wrong_kind', 'Wt.recv_frame', 'Wt.recv_disconnect',
+    'Wt.send_after_disconnect', 'Wt.recv_sends_nothing', 'Wt.wsdCode_eq', 'Wt.op_refines_Ws', 'Wt.bad_argument_invisible_to_Ws', 'Wt.run_bad_arguments_invisible',
+    'Wt.op_inbox', 'Wt.run_refines_Ws',
 ]
 STATEMENTS = {
     'Ws.emitted_trace_legal': 'for every configuration (spec version, close-reason table, error_close_code, custom error handler script), responder script with per-op catch flags, every sequence of observed disconnect-flag values, inbox, and every position and kind of a failing server send: the events the server accepted form a word of connecting -accept-> open -send*-> open -close-> done (connecting -close-> done is the 403 denial), i.e. <= 1 accept, data only between accept and close, <= 1 close, nothing after close',
@@ -87,6 +92,18 @@ STATEMENTS = {
     'Wa.accept_is_op': 'accept() with concrete arguments is by definition the operation Wa.toOp of the session model, so every Ws / Wp session theorem covers responders calling accept with arbitrary arguments',
     'Wa.process_ok': 'whenever the processing of a headers argument returns a list: one entry per item, in order, names lower-cased ASCII without upper-case letters, values unchanged, none named sec-websocket-protocol',
     'Wa.forbidden_rejected': 'if any item is named sec-websocket-protocol in some letter case (incl. the KELVIN SIGN spelling str.lower() maps to it) the processing raises',
+    'Wt.state_error_wins': 'send_text / send_data / send_media in a state other than ACCEPTED (before accept(), after a close or an observed disconnect): _require_accepted() runs first, so the STATE error (OperationNotAllowed / WebSocketDisconnected(close code)) is raised for every argument type, well typed or not, under every value of the disconnect flag; nothing is sent, nothing changes',
+    'Wt.accepted_bad_argument': 'in the ACCEPTED state an argument of a refused type (send_text: not a str; send_data: not bytes / bytearray / memoryview; send_media: the serializer raises) gives TypeError (the serializer\'s error) even when the pump has already seen the disconnect - the flag is consulted in _send only - and the object is unchanged (still ACCEPTED)',
+    'Wt.bad_argument_inert': 'a send with a wrongly typed argument never hands an event to the server and leaves state, close code, events sent and pending client events exactly as they were, in every state and under every flag value',
+    'Wt.good_send_accepted': 'a well typed send on an accepted connection with the flag clear appends exactly one websocket.send event with exactly one payload key - text for send_text / send_media(TEXT), bytes for send_data / send_media(anything that is not the TEXT member) - and changes nothing else',
+    'Wt.send_returns_iff': 'a send entry point returns normally iff the state is ACCEPTED, the disconnect flag is clear and the argument is of an accepted type; the key of the event is then the entry point\'s',
+    'Wt.recv_frame': 'on an accepted connection whose next client event is a frame: receive_text returns iff the text key holds a value (missing or None: PayloadTypeError), receive_data likewise for bytes, receive_media prefers text; the frame is consumed in every case (also when the error is raised) and the state stays ACCEPTED',
+    'Wt.recv_wrong_state': 'a receive in a state other than ACCEPTED raises the state error and takes nothing from the server',
+    'Wt.send_after_disconnect': 'after a receive was handed the disconnect event every send, of any argument type, raises WebSocketDisconnected with the event\'s code (1000 if absent) and nothing is sent',
+    'Wt.op_refines_Ws': 'every call with an argument of an accepted type, on well-formed client events, is exactly the step of the session model Ws (sendMsg / recv; server send working, pump running): same state, close code, appended event, error - so the Ws session theorems speak about these entry points',
+    'Wt.bad_argument_invisible_to_Ws': 'a call refused for its argument type leaves the Ws object unchanged: the session continues exactly as Ws says it would have without the call',
+    'Wt.run_refines_Ws': 'a whole script of calls with arguments of accepted types, each caught, against well-formed client events is the Ws script (runScript, catch all) of the corresponding operations: same final object, same log of errors',
+    'Wt.run_bad_arguments_invisible': 'inserting a wrongly typed send anywhere into any script changes neither the final object nor any other call\'s outcome; it only adds one error to the log',
     'Ws.send_spec': '_send either hands exactly the event to the server and keeps the state (which was not CLOSED), or hands nothing that the server accepts, raises, and keeps the state or moves it to CLOSED',
 }
 TRUSTED = [
@@ -147,10 +164,9 @@ RULE = ('random sessions: responder scripts of 0..8 ops x client scripts of 0..6
         'ABANDONED operations: ops Kt / Kd / Km (receive_text / receive_data / receive_media under asyncio.wait_for with a timeout that fires, or cancelled as a task, while really waiting) and Ks / Kb (send cancelled while the server call is in flight) '
         'followed by further receives, sends, closes, against clients that are idle at marked points (inbox marker w), max_receive_queue 0 / 1 / 4: 3000 (24000) random sessions, every continuation of <= 2 ops over 7 ops after each of 4 abandoned receives x 3 queue sizes x 3 client scripts, '
         'and K ops / idle points sprinkled into the random sessions (with middleware, faults, custom handlers). '
+        'ENTRY POINT x ARGUMENT TYPE x STATE (Wt): 27 calls (send_text / send_data x str, str subclass, bytes, bytes subclass, bytearray, memoryview, None, int, list/dict; send_media x payload_type TEXT / BINARY / another object x serializable or not; receive_text / _data / _media) x 14 situations (before accept, accepted, closed by the application with 3 codes, client gone observed by each receive, disconnect seen by the pump only, server receive raising; queue 0 / 8; client frames with each payload key missing / None / a value) each followed by a well-typed send_text, send_data and a receive, plus 1500 (15000) random scripts of 1..6 calls x 0..4 client events x 8 setups, all through falcon.asgi.App; '
         'non-trivial = at least one event was handed to the server\'s send; distinct = distinct driver line (configuration + scripts + observed flags)')
-PARTIAL = ('the isinstance checks of send_text / send_data are not a constructor of the models: the kind-level model Ws has no such operation (sessions containing a wrongly typed send are compared with Wp only), '
-           'and the Wp correspondence represents the call as the model operation of the same shape - `_require_accepted()`, then the argument is refused before `_send` runs - i.e. sendMedia with an argument its serializer rejects '
-           '(token Smt!; covered by Wp.send_media_serialize_error and, for the state precedence, by requireAccepted in Ws.wrong_state_send); the exact error class (TypeError) and the (argument type, state) table are decided by the independent oracle only. '
+PARTIAL = ('the isinstance checks of send_text / send_data and the order of the state test and the argument test are now the model Wt (WsArgs.lean; state_error_wins, accepted_bad_argument, bad_argument_inert, good_send_accepted, send_returns_iff, recv_frame) with its own correspondence over entry point x argument type x state and the refinement op_refines_Ws / run_refines_Ws to the session model; what Wt leaves out: the server\'s send always returns in Wt (its failures are Ws / Wp), the error of a media serializer is one class (serErr; the harness\' handlers raise TypeError), deserialization in receive_media is not in Wt (Wp has it), a receive event of a type other than websocket.receive / websocket.disconnect (the assert in _receive) is not modelled, and the refinement to Ws is stated for frames with exactly one payload (Ws has no kind for none or two - Wt.recv_frame covers them directly). In the big Ws / Wp session correspondences a wrongly typed send is still represented as sendMedia with a rejected argument (token Smt!). '
            'whether an abandonable receive had to wait (was parked and cancelled) is, like the disconnect flag, an observation of the run fed to the model (the waiter bookkeeping of a cancelled receive is C18\'s Wb / Wu models); the independent oracle decides '
            'from the client script alone whether it must have waited. A send cancelled in flight is not a constructor of the model: the correspondence represents it as a server send raising an untranslated exception which the script catches '
            '(fail=<that call> fault=other) - both leave the socket untouched because _send handles only Exception; at most one per session. Wa pins CPython\'s exception classes for undocumented argument types via a table in the model (str.lower of non-ASCII code points: '
@@ -1797,11 +1813,203 @@ def run(ctx):
         for _ in range(ctx.n(6000, 60000)):
             await accept_call(rnd.choice(['2.0', '2.1', '2.1', '2.2', '2.3', '2.4']), rnd.choice(['h'] * 8 + ['a', 'c']), rnd.random() < 0.08, gen_accept_args(rnd), 'random')
 
+    # ---------------------------------------------------------------- entry point x argument type x connection state = Wt model
+    sess_wt = ctx.session('send_text / send_data / send_media / receive_text / receive_data / receive_media x argument type x connection state, through falcon.asgi.App: '
+                          'outcome class, events handed to the server, public properties after every call = Wt model (run)', 'wtdriver')
+    ORA_WT = ('entry points x argument types x states: a call whose argument is not of the documented type raises and hands nothing to the server; a call made before accept() raises '
+              'OperationNotAllowed, after a close / disconnect WebSocketDisconnected, whatever the argument; every websocket.send event carries exactly one of text (a str) / bytes (a bytes); '
+              'receive_text returns a str, receive_data a bytes, or raises')
+
+    class BytesSub(bytes):
+        """an application's own bytes subclass"""
+
+    def wt_arg(kind, j):
+        text = 'p%d€' % j; data = bytes([j % 256, 0, 255])
+        return {'str': text, 'strsub': StrSub(text), 'bytes': data, 'bytessub': BytesSub(data), 'bytearray': bytearray(data), 'memoryview': memoryview(data),
+                'none': None, 'int': j, 'other': [1, 2] if j % 2 else {'k': 1}}[kind]
+
+    def wt_event(tok, k):
+        if tok[0] == 'd':
+            return {'type': 'websocket.disconnect'} if tok[1:] == '-' else {'type': 'websocket.disconnect', 'code': int(tok[1:])}
+        e = {'type': 'websocket.receive'}
+        if tok[1] != 'm': e['text'] = None if tok[1] == 'n' else json.dumps({'t': k})
+        if tok[2] != 'm': e['bytes'] = None if tok[2] == 'n' else b'\x00J' + json.dumps({'b': k}).encode()
+        return e
+
+    async def wt_case(spec, origin):
+        """spec: setup h | a | c<code>, q, inbox (event tokens), ops (op tokens)"""
+        inbox = list(spec['inbox']); q = spec['q']
+        evq = [{'type': 'websocket.connect'}] + [wt_event(t, k) for k, t in enumerate(inbox)]
+        taken = [0]; sent = []
+        never = asyncio.get_running_loop().create_future()
+
+        async def receive():
+            if evq:
+                taken[0] += 1
+                return evq.pop(0)
+            if q:
+                await never            # the pump waits for the next event of an idle client
+            raise RuntimeError('server receive exploded')
+
+        async def send(m):
+            sent.append(dict(m))
+        rec = {'outs': [], 'discs': [], 'script_sent': [], 'cc': '-', 'bad': None, 'ran': False}
+
+        def flag(ws):
+            br = ws._buffered_receiver
+            return br.client_disconnected_code if br.client_disconnected else None
+
+        async def settle():
+            for _ in range(len(inbox) + 4):
+                await asyncio.sleep(0)
+
+        class Res:
+            async def on_websocket(self, req, ws):
+                setup = spec['setup']
+                if setup != 'h':
+                    await ws.accept(); await settle()
+                if setup[0] == 'c':
+                    d0 = flag(ws)
+                    await ws.close(int(setup[1:]))
+                    rec['cc'] = str(int(setup[1:]) if d0 is None else d0)      # a close() that finds the flag set records the client's code instead
+                for j, tok in enumerate(spec['ops']):
+                    await settle()
+                    d = flag(ws); n0 = len(sent); val = None; kind = tok[0]
+                    try:
+                        if kind == 'T': await ws.send_text(wt_arg(tok[1:], j))
+                        elif kind == 'D': await ws.send_data(wt_arg(tok[1:], j))
+                        elif kind == 'M':
+                            pt = {'t': WebSocketPayloadType.TEXT, 'b': WebSocketPayloadType.BINARY, 'o': [None, 1, 'text'][j % 3]}[tok[1]]
+                            media_obj = {'a': j} if tok[2] == '1' else {1, 2}
+                            if tok[1] == 't' and j % 2: await ws.send_media(media_obj)          # the default payload type
+                            else: await ws.send_media(media_obj, pt)
+                        elif tok == 'rt': val = await ws.receive_text()
+                        elif tok == 'rd': val = await ws.receive_data()
+                        else: val = await ws.receive_media()
+                        out = 'ok'
+                    except Exception as e:  # noqa
+                        out = exname(e)
+                        if out == 'PY' and type(e) is TypeError: out = 'SER' if kind == 'M' else 'TE'
+                        elif out == 'PY' and isinstance(e, RuntimeError) and 'server receive exploded' in str(e): out = 'SRV'
+                    new = sent[n0:]
+                    problems = []
+                    if out == 'ok':
+                        if kind in 'TDM':
+                            keys = [k for k in ('text', 'bytes') if new and new[0].get(k) is not None]
+                            out = 'sent:' + '+'.join(keys) if len(new) == 1 and new[0].get('type') == 'websocket.send' else 'sent?%d' % len(new)
+                            for m in new:
+                                okev = (m.get('type') == 'websocket.send' and len(keys) == 1 and
+                                        (isinstance(m.get('text'), str) if keys == ['text'] else type(m.get('bytes')) is bytes))
+                                if not okev: problems.append(f'the server was handed {m!r}: not a websocket.send event with exactly one of text (str) / bytes (bytes)')
+                                else: rec['script_sent'].append(keys[0][0])
+                        elif tok == 'rt':
+                            out = 'got:text' if isinstance(val, str) else 'got?'
+                            if not isinstance(val, str): problems.append(f'receive_text() returned {val!r}')
+                        elif tok == 'rd':
+                            out = 'got:bytes' if isinstance(val, bytes) else 'got?'
+                            if not isinstance(val, bytes): problems.append(f'receive_data() returned {val!r}')
+                        else:
+                            out = 'got:text' if isinstance(val, dict) and 't' in val else 'got:bytes' if isinstance(val, dict) and 'b' in val else 'got?'
+                        if kind in 'TDM' and (setup == 'h' or ws.unaccepted): problems.append('a send returned normally before accept()')
+                    else:
+                        if new:
+                            out += '!sent%d' % len(new)
+                            problems.append(f'the call raised {out} yet the server was handed {new!r}')
+                    wrong = (kind == 'T' and tok[1:] not in ('str', 'strsub')) or (kind == 'D' and tok[1:] not in ('bytes', 'bytessub', 'bytearray', 'memoryview'))
+                    if wrong and not out.startswith(('TE', 'ONA', 'WSD')): problems.append(f'{tok} (an argument of the wrong type) gave {out}')
+                    if setup == 'h' and out != 'ONA': problems.append(f'{tok} before accept() gave {out}, documented: OperationNotAllowed')
+                    if setup[0] == 'c' and not out.startswith('WSD'): problems.append(f'{tok} after close() gave {out}, documented: WebSocketDisconnected')
+                    if problems and rec['bad'] is None: rec['bad'] = f'op {j} ({tok}): ' + '; '.join(problems)
+                    rec['outs'].append(out + ':' + ''.join('1' if b else '0' for b in (ws.unaccepted, ws.closed, ws.ready)))
+                    rec['discs'].append('-' if d is None else str(d))
+                rec['ran'] = True
+                rec['left'] = len(evq)
+        app = falcon.asgi.App()
+        app.ws_options.max_receive_queue = q
+        app.ws_options.media_handlers[WebSocketPayloadType.BINARY] = BinHandler()
+        app.add_route('/ws', Res())
+        scope = {'type': 'websocket', 'asgi': {'version': '3.0', 'spec_version': '2.3'}, 'path': '/ws', 'query_string': b'',
+                 'headers': [], 'subprotocols': [], 'http_version': '1.1', 'scheme': 'ws',
+                 'server': ('127.0.0.1', 8000), 'client': ('127.0.0.1', 50000), 'root_path': ''}
+        task = asyncio.ensure_future(app(scope, receive, send))
+        for _ in range(2000):
+            if task.done(): break
+            await asyncio.sleep(0)
+        esc = '-'
+        if not task.done():
+            esc = 'TIMEOUT'; task.cancel()
+            await asyncio.gather(task, return_exceptions=True)
+        elif task.exception() is not None:
+            esc = exname(task.exception())
+        for _ in range(3):
+            await asyncio.sleep(0)
+        left = [t for t in asyncio.all_tasks() if t is not asyncio.current_task() and not t.done()]
+        for t in left: t.cancel()
+        if left: await asyncio.gather(*left, return_exceptions=True)
+        if not never.done(): never.cancel()
+        setup = spec['setup']
+        line = 'wt st=%s cc=%s showleft=%d inbox=%s ops=%s' % (setup[0], rec['cc'], 0 if q else 1, ','.join(inbox) or '-',
+                                                               ','.join(t + '/' + d for t, d in zip(spec['ops'], rec['discs'])))
+        if not rec['ran'] or esc != '-':
+            reply = f'script did not run to its end (escaped: {esc}; outcomes so far: {rec["outs"]})'
+        else:
+            reply = ' '.join(rec['outs']) + ' | sent=%s left=%s' % (''.join(rec['script_sent']) or '-', '-' if q else rec['left'])
+        sess_wt.case({'setup': setup, 'max_receive_queue': q, 'inbox': inbox, 'ops': spec['ops'], 'origin': origin})
+        sess_wt.op(line, reply)
+        shown = {'setup': setup, 'max_receive_queue': q, 'client_events': inbox, 'calls': spec['ops'], 'outcomes': rec['outs'], 'server_saw': sent}
+        ctx.oracle(ORA_WT, rec['bad'] is None, rec['bad'], shown)
+        ctx.seen(('wt', setup, q, tuple(inbox), tuple(spec['ops'])), bool(rec['script_sent']))
+        ctx.count('argstate_' + origin)
+        for t in rec['outs']: ctx.count('argstate_outcome_' + t.split(':')[0] + ('_' + t.split(':')[1] if t.startswith(('sent', 'got')) else ''))
+
+    WT_ARGS = ['str', 'strsub', 'bytes', 'bytessub', 'bytearray', 'memoryview', 'none', 'int', 'other']
+    WT_OPS = (['T' + a for a in WT_ARGS] + ['D' + a for a in WT_ARGS] + ['M' + p + k for p in 'tbo' for k in '10'] + ['rt', 'rd', 'rm'])
+    WT_EVENTS = ['fvm', 'fvm', 'fmv', 'fmv', 'fvn', 'fnv', 'fvv', 'fmm', 'fnn', 'fnm', 'fmn', 'd-', 'd1001', 'd4000']
+
+    def wt_directed():
+        """every entry point x argument kind x state: before accept, accepted, closed by the application, client gone (observed by a receive), disconnect
+        seen by the pump only (queue 8), each x queue 0 / 8, followed by a well-typed send_text, send_data and a receive"""
+        for op in WT_OPS:
+            for setup, q, pre, inbox in (('h', 0, [], ['fvm']), ('h', 8, [], ['fvm']), ('a', 0, [], ['fmv', 'fvm', 'fvv']), ('a', 8, [], ['fvm', 'fmv', 'fnn']),
+                                         ('a', 0, [], ['fvn', 'fnv', 'fmm']), ('c1000', 0, [], ['fvm']), ('c4000', 8, [], ['fvm']), ('c3001', 8, [], ['d1001']),
+                                         ('a', 0, ['rt'], ['d4000', 'fvm']), ('a', 0, ['rd'], ['d-']), ('a', 8, ['rm'], ['d1001']),
+                                         ('a', 8, [], ['fvm', 'd1001']), ('a', 8, [], ['d-']), ('a', 0, [], [])):
+                tail = ['Tstr', 'Dbytes', 'rt']
+                if q and not any(t[0] == 'd' for t in inbox):
+                    nrecv = sum(1 for t in pre + [op] + tail if t[0] == 'r')
+                    if nrecv > len(inbox): tail = tail[:2]
+                    if sum(1 for t in pre + [op] + tail if t[0] == 'r') > len(inbox): continue
+                yield {'setup': setup, 'q': q, 'inbox': inbox, 'ops': pre + [op] + tail}
+
+    def wt_random(rnd):
+        q = rnd.choice([0, 0, 8])
+        inbox = [rnd.choice(WT_EVENTS) for _ in range(rnd.randint(0, 4))]
+        if 'd' in ''.join(t[0] for t in inbox):       # nothing follows the disconnect
+            inbox = inbox[:[t[0] for t in inbox].index('d') + 1]
+        ops = [rnd.choice(WT_OPS) if rnd.random() < 0.6 else rnd.choice(['rt', 'rd', 'rm', 'Tstr', 'Dbytes']) for _ in range(rnd.randint(1, 6))]
+        if q and not any(t[0] == 'd' for t in inbox):
+            keep = []; nr = 0
+            for t in ops:                            # an idle client: a receive beyond its events would wait for ever
+                if t[0] == 'r':
+                    nr += 1
+                    if nr > len(inbox): continue
+                keep.append(t)
+            ops = keep or ['Tstr']
+        return {'setup': rnd.choice(['h', 'a', 'a', 'a', 'a', 'c1000', 'c4000', 'c3000']), 'q': q, 'inbox': inbox, 'ops': ops}
+
+    async def wt_calls():
+        i, k = ctx.shard
+        for j, spec in enumerate(wt_directed()):
+            if j % k == i: await wt_case(spec, 'directed')
+        for _ in range(ctx.n(1500, 15000)):
+            await wt_case(wt_random(ctx.rng), 'random')
+
     async def main():
         loop = asyncio.get_running_loop()
         loop.time = lambda: vclock[0]          # virtual time: nothing in this check may depend on the wall clock
         rnd = ctx.rng
         await accept_calls()
+        await wt_calls()
         for _ in range(ctx.n(8000, 60000)):
             await one(gen_random(rnd), 'random')
         for _ in range(ctx.n(3000, 24000)):
@@ -1826,6 +2034,7 @@ def run(ctx):
     sess.finish()
     sess_wp.finish()
     sess_wa.finish()
+    sess_wt.finish()
 
 
 LEVEL_TEXT = ('Machine-checked proofs (Lean 4) over an executable model that transcribes falcon/asgi/ws.py (accept/close/send_*/receive_*, _send with the server-error '
@@ -1849,7 +2058,8 @@ LEVEL_TEXT = ('Machine-checked proofs (Lean 4) over an executable model that tra
               'server with accept headers; every_spelling_rejected / accept_forbidden_header_raises prove the documented ValueError for every one of the 2^20 letter-case spellings of the forbidden name; Wa.accept is by definition an operation of Ws '
               '(the result of the argument processing is the hdrExc input of Ws.W.accept), and a third correspondence compares outcome and the exact accept event of calls on directly constructed sockets. '
               'A receive_* that the responder abandons while it waits (asyncio.wait_for timeout, task cancellation) is the operation recvAbandoned of Ws / Wp: recvAbandoned_noop and abandoned_receive_session_continues prove that the session goes on '
-              'as if it had never been issued; the correspondence runs such responders (virtual loop clock, clients idle at marked points, queue 0 / 1 / 4) against the model, the oracle decides from the client script alone which receives must have waited.')
+              'as if it had never been issued; the correspondence runs such responders (virtual loop clock, clients idle at marked points, queue 0 / 1 / 4) against the model, the oracle decides from the client script alone which receives must have waited.'
+              ' The ORDER of the state test and the argument-type test of the send / receive entry points is the model Wt (WsArgs.lean): state_error_wins, accepted_bad_argument, bad_argument_inert, send_returns_iff, recv_frame, and op_refines_Ws / run_refines_Ws link it to Ws; tied to the real App by its own correspondence over entry point x argument type x state.')
 LEVEL_NOTE = ('Trusted: Lean kernel + standard axioms; the scripted ASGI server, correspondence harness and oracles. The disconnect flag is a model input fed from the '
               'real object (its timing is C18). The media handlers are abstract in the theorems; the driver instantiates them with the C12 JSON model and the harness\' stub binary handler.')
 TECHNIQUE = 'Lean 4 invariant proof over an executable session model + differential correspondence model vs. real falcon.asgi.App + independent ASGI protocol monitor'
